@@ -69,3 +69,22 @@ func VerifAllocState(a *Allocator) (bufIdx, posIdx, curLen, nextLen int) {
 	}
 	return
 }
+
+var verifTreeMinSize int
+
+// VerifSetTreeMinSize overrides the initial size of the backing buffer of
+// trees created (or Reset) afterwards; 0 restores the built-in 1 MiB. With a
+// small value the buffer grows - is reallocated or remapped - after a few page
+// allocations instead of after thousands. Returns the previous override.
+func VerifSetTreeMinSize(n int) int {
+	old := verifTreeMinSize
+	verifTreeMinSize = n
+	return old
+}
+
+func verifMinSize(def int) int {
+	if verifTreeMinSize > 0 {
+		return verifTreeMinSize
+	}
+	return def
+}
